@@ -2,7 +2,7 @@ IMPORTS = """From Coq Require Import List Bool Arith NArith Lia Relations Permut
 Import ListNotations.
 From BB Require Import BN Brute SpaceFacts TrapFacts PercolateFacts AttractorFacts Diagram Invariants Checks Filter
   Strict PetriNet Control Meta FilterFacts PetriNetFacts TrappistFacts DiagramStruct DiagramSem1 DiagramCache
-  DiagramDepth DiagramComplete Termination ControlFacts MetaFacts."""
+  DiagramDepth DiagramComplete Termination ControlFacts MetaFacts Candidates StrictFacts MinExpandFacts CandidatesFacts."""
 
 EX_NET = """
 (* non-vacuity: two bistable switches; x0'=x1, x1'=x0, x2'=x3, x3'=x2 *)
@@ -54,15 +54,21 @@ Proof. eexists. split. vm_compute. reflexivity. vm_compute. reflexivity. Qed.
 
 SPEC["C03"] = dict(title="Every complete expansion strategy finds exactly the minimal trap spaces", comment="""
 Proved for BFS and DFS completion from any diagram reachable by plain operations (bfs_complete /
-dfs_complete need only the invariants that run_invariants establishes).  PARTIAL: for minimal-space,
-attractor-seed, block, source-SCC expansion and completion by skipping, the statement is decided by the
-correspondence run (model expand_min / skip_remaining vs code) plus the comparison of
-minimal_trap_spaces() with Brute.min_traps_b, whose exactness is min_traps_b_spec.""",
+dfs_complete need only the invariants that run_invariants establishes), for minimal-space expansion
+(expand_min_exact / expand_min_complete) and for completion by skip_remaining.  PARTIAL: for attractor-seed,
+block and source-SCC expansion the statement is decided by the correspondence run (models ASeeds.v /
+Blocks.v replayed against the code) plus the comparison of minimal_trap_spaces() with Brute.min_traps_b,
+whose exactness is min_traps_b_spec.""",
  theorems=[("bfs_complete", "bfs_complete", None), ("dfs_complete", "dfs_complete", None),
            ("leaves_are_min_traps", "hierarchy_leaves", None), ("min_traps_spec", "min_traps_b_spec", "the oracle for minimal trap spaces is exact"),
            ("min_trap_exists", "min_trap_exists", None), ("min_trap_closed", "min_trap_closed", None),
            ("min_trap_fixes_sources", "min_trap_fixes_sources", "why the source shortcut at the root loses no minimal trap space"),
-           ("invariants_along_histories", "run_invariants", None)],
+           ("invariants_along_histories", "run_invariants", None),
+           ("minimal_space_expansion_exact", "expand_min_exact", "minimal-space expansion (with or without skip_ignored) from a fresh diagram: leaves = minimal trap spaces"),
+           ("minimal_space_expansion_complete", "expand_min_complete", "... and from any diagram satisfying the invariants"),
+           ("skip_remaining_exact", "skip_remaining_exact", "completion of an early-stopped diagram by skip_remaining"),
+           ("leaves_always_minimal", "run_LeafOK", "in every reachable diagram (any history) an expanded node without successors is a minimal trap space"),
+           ("no_duplicates", "minimal_nodes_unique", None)],
  examples=EX_NET + """
 Example C03_example : length (min_traps_b ex_sw (top_space 4)) = 4.
 Proof. vm_compute. reflexivity. Qed.
@@ -120,13 +126,23 @@ is decided by the correspondence run against Control.successions, not by a theor
  examples="")
 
 SPEC["C08"] = dict(title="Attractor candidates cover every attractor under every option and limit setting", comment="""
-PARTIAL.  Proved: the fixed points of the reduced transition graph that the candidate pipeline asks the ASP
-solver for are exactly Brute.reduced_fixed_b (deadlock_program_models, reduce_pn_enabled), and the cover
-predicate run on the implementation's candidate lists is exact (check_cover_ok).  NOT proved: that those
-fixed points cover every attractor when the retained variables form a negative feedback vertex set
-(a signed-graph argument that is not formalised), and the branch structure of compute_attractor_candidates
-(greedy flips, regeneration, simulation), which is decided by check_cover on every returned list.""",
- theorems=[("check_cover_ok", "check_cover_ok", None), ("reduced_fixed_points_program", "deadlock_program_models", None),
+Model: Candidates.compute_candidates = compute_attractor_candidates branch by branch (all limit comparisons,
+greedy flips, regeneration loop, both simulation variants), driven by a solver tape and a walk tape; every
+run of the real pipeline is replayed on it (same sequence of solver calls, same result).
+compute_candidates_covers_weak: for EVERY option combination and EVERY configuration value (0 included) a
+COk result consists of states of the node space covering every attractor of the node, under
+(a) the tape contracts (each solver answer is a duplicate-free prefix, of the length its limit allows, of
+the reduced fixed points; walks visit reachable states), (b) reduction_hyp: for every assignment of the NFVS
+the reduced fixed points hit every attractor (a signed-graph fact that is NOT proved; it is checked on every
+recorded instance by nfvs_reduction_ok_b, proved equivalent), and (c) for the empty-NFVS shortcut, that every
+fixed point of the node lies in an avoided space (true for expanded nodes of a faithful diagram; the formal
+counterexample without it is compute_candidates_covers_counterexample).""",
+ theorems=[("pipeline_covers", "compute_candidates_covers_weak", None), ("pipeline_covers_nonempty_nfvs", "compute_candidates_covers_nonempty", None),
+           ("pipeline_complete", "compute_candidates_complete", "every COk result is an early exit or the complete fixed-point list of a total retained assignment (then possibly simulated)"),
+           ("limit_zero_never_truncates", "compute_candidates_limit0", None), ("greedy_keeps_complete", "greedy_loop_complete", None),
+           ("simulation_avoid_covers", "sim_avoid_covers", None), ("simulation_minimal_covers", "sim_min_covers", None), ("simulation_rounds_cover", "sim_rounds_covers", None),
+           ("reduction_check_exact", "nfvs_reduction_ok_b_spec", None), ("empty_nfvs_needs_side_condition", "compute_candidates_covers_counterexample", None),
+           ("check_cover_ok", "check_cover_ok", None), ("reduced_fixed_points_program", "deadlock_program_models", None),
            ("reduced_net_deadlocks", "reduce_pn_enabled", None), ("node_attractors_sound", "node_attractors_b_sound", None),
            ("node_attractors_complete", "node_attractors_b_complete", None),
            ("empty_list_means_no_attractor", "closed_contains_attractor", "a non-empty closed set always contains an attractor, so a node whose candidates are empty must have all its attractors inside its successors")],
@@ -157,6 +173,28 @@ pn_faithful_b is the exact executable test applied to the REAL Petri nets on eve
            ("fix_net_trap_space", "fix_net_trap_space", "percolating/fixing sources keeps the dynamics on the subspace"),
            ("fix_net_percolate", "fix_net_percolate", None)],
  examples="")
+
+SPEC["C11"] = dict(title="Percolation computes exactly the logical domain of influence", comment="""
+Model: Brute.percolate_b (twin of AEON's percolate_subspace, compared with percolate_space on every run),
+Strict.percolate_strict_ord (percolate_space_strict with the candidate set's iteration order as a parameter),
+conflicts_b, single_ldois, single_drivers.""",
+ theorems=[("is_percolation", "percolate_b_is_percolation", "reached by fixing, one at a time, free variables whose update function is constant on the space fixed so far; nothing more can be fixed"),
+           ("unique", "percolation_unique", "independent of the order"), ("least", "percolate_b_least", "least fixed point"),
+           ("keeps_given", "percolate_b_keeps", "given values are kept even when they conflict with the dynamics"),
+           ("idempotent", "percolate_b_idem", None), ("trap", "percolate_b_trap", None), ("const_on", "const_on_b_some", None),
+           ("strict_shape", "strict_result_shape", "what the strict variant reports"), ("strict_closed", "strict_result_closed", None),
+           ("strict_least", "strict_result_least", None), ("strict_order_independent", "strict_order_independent", "the Python set iteration order does not matter"),
+           ("strict_vs_percolate", "strict_eq_percolate", "without globally constant variables both variants fix the same variables"),
+           ("single_ldois", "single_ldois_spec", None), ("single_drivers", "single_drivers_spec", None),
+           ("single_drivers_python_reading", "single_drivers_items_reading", None), ("conflicts", "conflicts_b_spec", None)],
+ examples="""
+Definition ex_net : net :=
+  [fun s => nth 1 s false; fun s => nth 0 s false; fun s => nth 0 s false || nth 2 s false].
+Example C11_example_propagates : percolate_b ex_net [Some true; None; None] = [Some true; Some true; Some true].
+Proof. vm_compute. reflexivity. Qed.
+Example C11_example_conflict_kept : percolate_b ex_net [Some true; Some false; None] = [Some true; Some false; Some true].
+Proof. vm_compute. reflexivity. Qed.
+""")
 
 SPEC["C12"] = dict(title="Attractor sets are the complete attractors and the symbolic fallback agrees", comment="""
 Model: Filter.compute_attractors_filter returns, with the seeds, their reachable sets; check_sets is the
@@ -237,7 +275,7 @@ theorems below are the order-independence facts behind the places where the code
 sets or solver output.  PARTIAL: independence from the interpreter's hash seed and from other diagrams in
 the process is runtime behaviour, decided by re-running every case under several PYTHONHASHSEED values in
 fresh and in warm processes and comparing complete dumps.""",
- theorems=[("percolation_order_independent", "percolation_unique", None), ("strict_fuel", "strict_loop_fuel_enough", None),
+ theorems=[("percolation_order_independent", "percolation_unique", None), ("strict_order_independent", "strict_order_independent", "iteration over the Python candidate set"), ("strict_fuel", "strict_loop_fuel_enough", None),
            ("sort_by_key_perm", "sort_by_key_perm", "solver output is sorted by key before node ids are assigned"),
            ("space_key_inj", "space_key_inj", "the key determines the space"), ("find_node_exact", "find_node_exact", None)],
  examples="")
